@@ -92,7 +92,20 @@ class Form:
             raise Inconclusive("two tails")
         return pos
 
+    def _low_free(self, s: int) -> bool:
+        """No variable bit sits below position s (the variable part is a multiple of 2**s)."""
+        return all(c % (1 << s) == 0 for c in list(self.bits.values()) + list(self.tails.values()))
+
     def and_mask(self, mask: int) -> "Form":
+        if self.const != 0 and mask >= 0 and (mask & (mask + 1)) == 0:
+            k = mask.bit_length()  # mask = 2**k - 1
+            x = Form(self.bits, self.tails, 0)
+            if self.const % (1 << k) == 0:
+                return x.and_mask(mask)
+            if x._low_free(k):
+                return Form.k(self.const & mask)
+            if k == 1 and self.const % 2 == 1:
+                return Form.k(1) - x.and_mask(1)  # bit0(x + odd) = 1 - bit0(x)
         pos = self._placement()
         if mask < 0:
             if any(isinstance(k, tuple) for k in pos):
@@ -113,6 +126,14 @@ class Form:
         return Form(bits=bits)
 
     def rshift(self, s: int) -> "Form":
+        if self.const != 0:
+            x = Form(self.bits, self.tails, 0)
+            if self.const % (1 << s) == 0 or x._low_free(s):
+                # floor((x + c) / 2**s) = floor(x / 2**s) + floor(c / 2**s) when one of them is a multiple of 2**s
+                return x.rshift(s) + Form.k(self.const >> s)
+            if s == 1 and self.const % 2 == 1:
+                # (x + odd) >> 1 = (x >> 1) + (odd >> 1) + bit0(x): the carry out of bit 0 is bit0(x) itself
+                return x.rshift(1) + Form.k(self.const >> 1) + x.and_mask(1)
         pos = self._placement()
         bits: dict = {}
         tails: dict = {}
@@ -218,6 +239,11 @@ class Evaluator:
                 if cl is not None:
                     return self.ev(e.right).scale(cl)
                 raise Inconclusive("* of two non-constants")
+            if isinstance(op, ast.FloorDiv):
+                cr = self.const(e.right)
+                if cr is not None and cr > 0 and cr & (cr - 1) == 0:
+                    return self.ev(e.left).rshift(cr.bit_length() - 1)
+                raise Inconclusive("// by a non power of two")
             if isinstance(op, ast.Mod):
                 cr = self.const(e.right)
                 if cr is not None and cr > 0 and cr & (cr - 1) == 0:
